@@ -422,18 +422,18 @@ theorem primSim_proj (k : Nat) : PrimSim₀ encPrimsCX encPrimsU (RelProj k) whe
   ix_setRegs := fun _ => Iff.rfl
   ix_addLink := fun _ => Iff.rfl
   numeric := fun dd nb sc rf s =>
-    SimAt.congr_rel (fun _ t _ => encNumericU_eq dd nb sc rf t)
+    SimAt.congr_rel (fun _ t _ => sim_encNumericU_eq dd nb sc rf t)
       (encStepC_encStep_sim k dd _ _
         (colProj_checked _ _ (colNumeric_upd nb sc rf) (fldNumeric_upd nb sc rf)) s)
   string := fun dd n s =>
-    SimAt.congr_rel (fun _ t _ => encStringU_eq dd n t)
+    SimAt.congr_rel (fun _ t _ => sim_encStringU_eq dd n t)
       (encStepC_encStep_sim k dd _ _ (colProj_string n) s)
   codeflag := fun dd n s =>
-    SimAt.congr_rel (fun _ t _ => encCodeflagU_eq dd n t)
+    SimAt.congr_rel (fun _ t _ => sim_encCodeflagU_eq dd n t)
       (encStepC_encStep_sim k dd _ _
         (colProj_checked _ _ (colCodeflag_upd n) (fldCodeflag_upd n)) s)
   newRefval := fun e n s =>
-    SimAt.congr_rel (fun _ t _ => encNewRefvalU_eq e n t)
+    SimAt.congr_rel (fun _ t _ => sim_encNewRefvalU_eq e n t)
       (encStepC_encStep_sim k _ _ _ (colProj_newRefval e.id n) s)
   constant := fun dd c s =>
     SimAt.congr_rel (fun _ t _ => encConstantU_eq dd c t)
